@@ -1,15 +1,24 @@
-"""C17 -- graph traversals and name lookups (bounded stand-in only: generators over an object graph are outside pyvc)."""
+"""C17 -- graph traversals and name lookups (one generator under contract; the worklist traversals are a bounded stand-in)."""
 from vk.common import PropertyResult
 from bounded import traversal_drv
 
 
 def run(tier, seed):
-    res = PropertyResult('C17', 'exploration',
-                         'Runtime contracts (permutation, driver-before-reader cut at state elements, sources first, level = longest combinational '
+    res = PropertyResult('C17', 'other',
+                         'Tier P (unbounded, one function): Circuit.topological_line_order is executed symbolically as a generator (yields appended to a ghost sequence) for an arbitrary '
+                         'node sequence produced by topological_order() and arbitrary pin lists, and proved to yield exactly the connected output lines of the nodes, node by node in that order and '
+                         'in pin order within a node (position = lines of earlier nodes + connected pins below), never None. Tier B: runtime contracts (permutation, driver-before-reader cut at state elements, sources first, level = longest combinational '
                          'distance, mirror conditions for the reversed order, fan-in between the combinational and the any-path cone, bus lookups by '
                          'construction) evaluated on the real generators over a stated bounded circuit space. Not a proof.')
+    try:
+        from contracts import graph_c
+        from pyvc.verify import verify
+        res.report = verify(graph_c.targets_c17(), timeout_s=20 if tier == 'quick' else 120)
+    except ImportError:
+        res.report = None
     res.bounded = [traversal_drv.traversal_part(tier, seed), traversal_drv.locs_part(seed)]
-    res.assumptions = ['bounded: only the enumerated/seeded circuits and naming schemes are covered',
+    res.assumptions = ['proved part: topological_order() enters as an arbitrary sequence of nodes (its own contract -- permutation, drivers first -- is bounded evidence only: a worklist over a dict of '
+                       'visit counts); CONNPINS/CNTY monotone by the two induction lemmas', 'bounded: only the enumerated/seeded circuits and naming schemes are covered',
                        'oracle: spec-side BFS/recursion over Node.ins/outs (reads the same graph object, so C09 consistency is assumed)']
-    res.trusted_base = ['/verif/bounded/traversal_drv.py (runtime contracts)', 'CPython']
+    res.trusted_base = ['pyvc', 'z3 5.1.0', '/verif/bounded/traversal_drv.py (runtime contracts)', 'CPython']
     return res
